@@ -173,6 +173,21 @@ def main():
     rocq_probs += audit([core] + ([coqdir] if coqdir != core else []))
     n_obl, n_dis, probs, axioms = rocq_obligations(prop, mod.THEOREMS, coqdir, logical)
     rocq_probs += probs
+    # Python half (the real /repo Python layer under pyshim against the value-level specifications of cpy/coq)
+    PH = None
+    if getattr(mod, 'PY_HALF', False):
+        import pyhalves as PH
+        try:
+            if not a.no_build:
+                PH.build(impl=True)
+            n2, d2, probs2, ax2 = PH.rocq_obligations(prop)
+            n_obl += n2
+            n_dis += d2
+            rocq_probs += probs2
+            axioms.update(ax2)
+        except C.BuildError as e:
+            rocq_probs.append(str(e)[-1500:])
+            PH = None
 
     # ---- correspondence
     rng = random.Random(a.seed)
@@ -193,6 +208,19 @@ def main():
             cases = pre + cases
     C.log('%d cases' % len(cases))
     summary = mod.run(cases, tier, rng) if hasattr(mod, 'run') else default_run(mod, cases, tier)
+    if PH is not None and not a.replay:
+        rng2 = random.Random(a.seed * 7919 + 13)
+        pcases = PH.CASES[prop](rng2, tier)
+        s2 = getattr(PH, 'run_' + prop)(pcases, tier, rng2)
+        C.log('python half: %d calls, verdicts %s' % (s2['evaluations'], s2.get('verdicts')))
+        summary['findings'] = list(summary['findings']) + list(s2['findings'])
+        summary['corr_obligations'] = dict(summary['corr_obligations'], **s2['corr_obligations'])
+        summary['evaluations'] += s2['evaluations']
+        summary['distinct_nontrivial'] += s2['distinct_nontrivial']
+        summary['samples'] = list(summary['samples'][:4]) + list(s2['samples'][:3])
+        summary.setdefault('extra', {})
+        summary['extra']['python_half'] = dict(verdicts=s2.get('verdicts'), distribution=s2.get('distribution'),
+                                               **s2.get('extra', {}))
     corr_obl = summary['corr_obligations']       # dict name -> ok(bool)
     known = C.load_known()
     out_lines = []
@@ -231,7 +259,7 @@ def main():
         checker_cmd='coqc -R /verif/coq AwkV Props_%s.v (after full make of /verif/coq); bin/check %s --tier %s' % (prop, prop, tier),
         trusted_base=mod.TRUSTED_BASE if hasattr(mod, 'TRUSTED_BASE') else DEFAULT_TB,
         theorems={t: ('axioms: ' + ', '.join(axioms[t]) if axioms.get(t) else 'closed under the global context')
-                  for t in mod.THEOREMS if t in axioms},
+                  for t in list(mod.THEOREMS) + (PH.THEOREMS_BY_PROP.get(prop, []) if PH else []) if t in axioms},
         correspondence_obligations=corr_obl,
         evaluations=summary['evaluations'], distinct_nontrivial=summary['distinct_nontrivial'],
         rule=mod.RULE, samples=summary['samples'][:6], distribution=summary.get('distribution', {}),
